@@ -15,7 +15,7 @@ E = 4
 T = f"memref<{E}xi32>"
 RULE = (
     "two case families. kernels: public functions with 3 memref arguments (no memory space), local allocs and 1-12 linalg.generic kernels "
-    "(1-2 inputs) in straight-line code and scf.for nests (0-2 trips), compiled with set-memory-space,realize-memref-casts[,clear-memory-space]; "
+    "(1-2 inputs; in a quarter of the cases 30% of the kernels accumulate, i.e. read their own output) in straight-line code and scf.for nests (0-2 trips), compiled with set-memory-space,realize-memref-casts[,clear-memory-space]; "
     "reference = the program as written (kernels operate on the arguments directly), subject = the compiled program where every alloc is a "
     "distinct buffer holding site-tagged garbage and copies move contents; both executed on symbolic buffer contents. Oracles: static - SSA "
     "dominance of the output, every linalg operand in L1, argument types in L3; data - every kernel execution reads the provenance the "
@@ -31,12 +31,13 @@ RULE = (
 
 
 class KGen:
-    def __init__(self, rng):
+    def __init__(self, rng, accum=0.0):
         self.r = rng
         self.n = 0
         self.tag = 0
         self.bufs = ["%a0", "%a1", "%a2"]
         self.written: set[str] = set()
+        self.accum = accum
 
     def stmt(self, depth, top):
         r = self.r
@@ -56,9 +57,12 @@ class KGen:
         ins = [r.choice(readable) for _ in range(nin)]
         outs = [b for b in self.bufs if b not in ins]
         out = r.choice(outs)
+        st = {"k": "gen", "ins": ins, "out": out, "tag": self.tag}
+        if self.accum and r.random() < self.accum and (out.startswith("%a") or out in self.written):
+            st["acc"] = True  # out = f(ins, out): the output is read as well
         if depth == 0:
             self.written.add(out)
-        return {"k": "gen", "ins": ins, "out": out, "tag": self.tag}
+        return st
 
     def program(self):
         return {"body": [self.stmt(0, True) for _ in range(self.r.randint(2, 8))]}
@@ -85,7 +89,8 @@ def kernels_emit(ast):
                 e(
                     ind,
                     f'linalg.generic {{indexing_maps = [{maps}], iterator_types = ["parallel"], doc = "k{s["tag"]}"}} '
-                    f'ins({", ".join(s["ins"])} : {", ".join([T] * n)}) outs({s["out"]} : {T}) {{\n^bb0({args}):\n  linalg.yield %x0 : i32\n}}',
+                    f'ins({", ".join(s["ins"])} : {", ".join([T] * n)}) outs({s["out"]} : {T}) {{\n^bb0({args}):\n'
+                    + (f"  %acc = arith.addi %x0, %x{n} : i32\n  linalg.yield %acc : i32\n}}" if s.get("acc") else "  linalg.yield %x0 : i32\n}"),
                 )
 
     e(0, "builtin.module {")
@@ -99,7 +104,7 @@ def kernels_emit(ast):
     return "\n".join(L)
 
 
-def first_use_is_read(ast):
+def first_use_is_read(ast, what="discipline"):
     """Discipline (DESIGN.md 5.0): for every *cast value*, its first use in program order is a read, or it is never
     read.  set-memory-space creates one cast per argument and block scope: a kernel uses the cast created by an
     earlier kernel on the same argument iff that kernel's block encloses it."""
@@ -121,10 +126,12 @@ def first_use_is_read(ast):
                     if b_.startswith("%a"):
                         use(b_, path, "r")
                 if s["out"].startswith("%a"):
-                    use(s["out"], path, "w")
+                    use(s["out"], path, "rw" if s.get("acc") else "w")
 
     walk(ast["body"], ())
-    return all(c["kinds"][0] == "r" or "r" not in c["kinds"] for cs in casts.values() for c in cs)
+    if what == "accumulating-first":
+        return any(c["kinds"][0] == "rw" for cs in casts.values() for c in cs)
+    return all(c["kinds"][0] in ("r", "rw") or not ({"r", "rw"} & set(c["kinds"])) for cs in casts.values() for c in cs)
 
 
 def kargs(m: BufferMachine, env):
@@ -399,7 +406,8 @@ def gen_case(rng, tier):
         depth = [rng.choice([1, 2, 2, 3]) for _ in range(rank)]
         tb = [[rng.choice([1, 2, 2, 3, 4]) for _ in range(depth[d])] for d in range(rank)]
         return {"fam": "const", "tb": tb, "steps": gen_steps(rng, tb, pad=False), "el": rng.choice(["i8", "i32"]), "kind": rng.choice(["const", "const", "global", "global", "global-two-gets", "global-two-casts", "global-two-funcs"]), "mul": rng.choice([1, 3, 7])}
-    ast = KGen(rng).program()
+    accum = rng.choice([0, 0, 0, 0.3])
+    ast = KGen(rng, accum).program()
     envs = [{"n": [rng.choice([0, 1, 2]), rng.choice([0, 1, 2])]} for _ in range(K_ENVS[tier])]
     return {"fam": "kernels", "ast": ast, "envs": envs, "clear": rng.random() < 0.2}
 
@@ -421,6 +429,27 @@ def _shrink_body(body):
                 yield body[:i] + [dict(s, body=nb)] + body[i + 1 :]
         if s["k"] == "gen" and len(s["ins"]) > 1:
             yield body[:i] + [dict(s, ins=s["ins"][:1])] + body[i + 1 :]
+
+
+def _kf_c12_1(case, outcome):
+    """the first use of some cast value is a kernel that accumulates into it (reads its own output)"""
+    import re
+
+    if not (case.get("fam") == "kernels" and outcome.get("oracle") == "data" and first_use_is_read(case["ast"], "accumulating-first")):
+        return False
+    # ... and the first kernel that reads other data than in the reference is an accumulating one
+    m = re.search(r"reference reads \('k(\d+)'", outcome.get("message") or "")
+    acc_tags = {st["tag"] for st in _all_stmts(case["ast"]["body"]) if st.get("acc") and st["out"].startswith("%a")}
+    return bool(m and int(m.group(1)) in acc_tags)
+
+
+def _all_stmts(body):
+    for st in body:
+        yield st
+        yield from _all_stmts(st.get("body", []))
+
+
+TRIGGERS = {"accumulating_output_gets_no_copy_in": _kf_c12_1}
 
 
 def shrink(case):
